@@ -65,7 +65,9 @@ inductive Validator where
   deriving Repr, DecidableEq
 
 inductive Body where
-  | undecodable
+  | undecodable (reraised : Bool := false)
+      -- the payload cannot be turned into a call: the deserialiser raises; `reraised` = it raises a
+      -- CommunicationError (SerializeError) or SecurityError, which handleRequest reports AND re-raises
   | handshake (wellFormed : Bool) (objKnown : Bool) (v : Validator)
   | call (t : Target)
   deriving Repr, DecidableEq
@@ -151,7 +153,9 @@ def handleRequest (it : Item) : ReqResult :=
       -- KeyError; the error reply needs the same unknown serializer and fails too, unless oneway
       if m.oneway then {} else { raised := true }
     else match m.body with
-      | .undecodable | .handshake _ _ _ =>
+      | .undecodable reraised =>
+        if m.oneway then { raised := reraised } else { reply := some (errReply m), raised := reraised }
+      | .handshake _ _ _ =>
         if m.oneway then {} else { reply := some (errReply m) }
       | .call .unknownObject | .call .refused =>
         if m.oneway then {} else { reply := some (errReply m) }
